@@ -34,6 +34,9 @@ pub const KEYS: &[&str] = &[
     "customer_shipping_address_line_1",
     "customer_shipping_address_line_2",
     "customer_shipping_addr",
+    // names that have two plain-JSON spellings (short escape and \u00XX)
+    "\n",
+    "\tx",
 ];
 pub const PATTERNS: &[&str] = &["^[a-c]+$", "^[0-9]{2,3}$", "^a", "b$", "^(ab|cd)*$", "^[^x]*$", "^x[0-9]?$", "[0-9]"];
 
@@ -1072,6 +1075,16 @@ pub fn respell_keys(text: &str) -> Option<String> {
     let b = text.as_bytes();
     let mut i = 0;
     while i + 3 < b.len() {
+        // a key that starts with a short escape of a control character: \n -> \u000a, \t -> \u0009 (both spellings are
+        // plain JSON, whatever the escape options)
+        if (b[i] == b'{' || b[i] == b',') && b[i + 1] == b'"' && b[i + 2] == b'\\' && (b[i + 3] == b'n' || b[i + 3] == b't') {
+            let c = if b[i + 3] == b'n' { 0x0a } else { 0x09 };
+            let mut s = String::new();
+            s.push_str(&text[..i + 2]);
+            s.push_str(&format!("\\u{:04x}", c));
+            s.push_str(&text[i + 4..]);
+            return Some(s);
+        }
         if (b[i] == b'{' || b[i] == b',') && b[i + 1] == b'"' && b[i + 2].is_ascii_alphanumeric() {
             let c = b[i + 2];
             let mut s = String::new();
